@@ -377,6 +377,60 @@ theorem C08_attr_name_lowercased (n o : Bytes)
     simp only [Bool.and_eq_true, decide_eq_true_eq] at hc
     exact hc
 
+/-! ## The setters use exactly these validators -/
+
+/-- `set_attribute` succeeds iff the lower-cased name passes `name_from_string`; then exactly one
+attribute — the first one whose name matches case-insensitively, else a new last one — carries the
+value, has lost its raw source bytes (so it is re-serialised as `name="escaped value"`), and its name
+is the validated name or the matching source name; the tag is marked modified. -/
+theorem C08_set_attribute_ok (tag : StartTag) (n v : Bytes)
+    (h : (tag.setAttribute Codec.utf8 n v).2 = .ok ()) :
+    ∃ o, attrNameFromString Codec.utf8 (asciiLowerBytes n) = .ok o ∧
+      (tag.setAttribute Codec.utf8 n v).1 =
+        { tag with attributes := setAttributeItems Codec.utf8 o v tag.attributes, raw := none } ∧
+      ∃ a ∈ setAttributeItems Codec.utf8 o v tag.attributes,
+        a.value = v ∧ a.raw = none ∧ (a.name = o ∨ eqCaseInsensitive a.name o = true) := by
+  simp only [StartTag.setAttribute, StartTag.setAttributeWith] at h ⊢
+  split at h
+  · cases h
+  · rename_i o ho
+    refine ⟨o, ho, rfl, ?_⟩
+    generalize tag.attributes = l
+    induction l with
+    | nil =>
+      exact ⟨{ name := o, value := ownedFromStr Codec.utf8 v, raw := none },
+        by simp [setAttributeItems], rfl, rfl, Or.inl rfl⟩
+    | cons a rest ih =>
+      simp only [setAttributeItems]
+      split
+      · rename_i heq
+        exact ⟨a.setValue Codec.utf8 v, by simp, rfl, rfl, Or.inr heq⟩
+      · obtain ⟨a', ha', hv', hr', hn'⟩ := ih
+        exact ⟨a', by simp [ha'], hv', hr', hn'⟩
+
+/-- `set_tag_name` succeeds iff the name passes `tag_name_bytes_from_str`; then the start tag (and,
+for an element that can have content, its end tag) carry exactly the validated name and are
+re-serialised. -/
+theorem C08_set_tag_name_ok (el : Element) (n : Bytes)
+    (h : (el.setTagName Codec.utf8 n).2 = .ok ()) :
+    tagNameBytesFromStr Codec.utf8 n = .ok n ∧
+      (el.setTagName Codec.utf8 n).1.startTag = { el.startTag with name := n, raw := none } ∧
+      (el.canHaveContent = true → ∀ e : EndTag,
+        ((el.setTagName Codec.utf8 n).1.applyToEndTag e).serialize
+          = Gen.Consts.endTagOpen ++ n ++ Gen.Consts.endTagClose) := by
+  simp only [Element.setTagName, Element.setTagNameWith] at h ⊢
+  split at h
+  · cases h
+  · rename_i o ho
+    have ho' : o = n := by
+      have := (tagName_ok_iff.mp (show tagNameBytesFromStrWith Gen.Consts.tagNameReject
+        Gen.Consts.tagNameFirstAsciiAlpha Codec.utf8 n = .ok o from ho)).1
+      exact this
+    subst ho'
+    refine ⟨ho, rfl, ?_⟩
+    intro hc e
+    simp [Element.applyToEndTag, hc, EndTag.serialize]
+
 /-! ## C08_reject_unchanged -/
 
 /-- A setter that returns an error leaves the token as it was (any codec, any reject lists). -/
